@@ -294,6 +294,96 @@ def w7(ctx, rid):
         ctx.bad(rid, 'index-tool-validates-headers', r.where(), 'read_index no longer validates the record headers it reports')
 
 
+def w8(ctx, rid):
+    """the skip after a bad record header measures from the reader's own cursor plus the sizes in the header; it never trusts an
+    offset stored in the header that just failed validation"""
+    prog = ctx.prog
+    f = prog.fns.get('tools::blob_reader::BlobReader::skip_wrong_record_data')
+    if f is None:
+        raise core.AnchorLost('skip_wrong_record_data')
+    key = 'skip-from-own-cursor'
+    seeks = [c for c in f.calls if c.name == 'seek']
+    if not seeks:
+        raise core.AnchorLost('seek in skip_wrong_record_data')
+    bad = None
+    good = False
+    for c in seeks:
+        ogs = core.origins(f, c.args[1], stop_fields=True)
+        deep = list(ogs)
+        for _ in range(4):
+            more = []
+            for o in deep:
+                if o.kind == 'agg':
+                    for x in o.data['ops']:
+                        more += core.origins(f, x, stop_fields=True)
+                if o.kind == 'call' and o.data.name in ('checked_add', 'and_then', 'ok_or_else', 'saturating_add', 'wrapping_add') and o.data.args:
+                    for a in o.data.args:
+                        more += core.origins(f, a, stop_fields=True)
+                if o.kind == 'binop':
+                    for x in (o.data['a'], o.data['b']):
+                        more += core.origins(f, x, stop_fields=True)
+            new = [m for m in more if m.key() not in {d.key() for d in deep}]
+            if not new:
+                break
+            deep += new
+        fam_calls = [x for fid in prog.family(f.id) for x in prog.fns[fid].calls]
+        untrusted = [x for x in fam_calls if x.name in ('data_offset', 'meta_offset', 'blob_offset') and 'record::record::Header' in x.path]
+        if untrusted:
+            bad = untrusted[0]
+        if any(o.kind == 'field' and o.data[1] == 'position' for o in deep):
+            good = True
+    if bad:
+        ctx.bad(rid, key, bad.where(), 'the skip target is computed from `%s` of the header that failed validation: a damaged blob_offset field sends the reader to garbage and every later intact record is dropped' % bad.name)
+    elif good:
+        ctx.ok(rid, key, seeks[0].where(), 'skip target = own position + sizes')
+    else:
+        ctx.bad(rid, key, seeks[0].where(), 'the skip target does not derive from the reader\'s own position')
+
+
+def w9(ctx, rid):
+    """migration hands the *source* version to both preprocessors: the version argument originates in the header as read from
+    the input, not in the already converted header"""
+    prog = ctx.prog
+    f = prog.fns.get('tools::utils::process_blob_with')
+    if f is None:
+        raise core.AnchorLost('process_blob_with')
+    pre = [c for c in f.calls if c.name in ('call', 'call_once', 'call_mut') and (c.self_ty or {}).get('h') in ('param', '&')]
+    n = 0
+    conv_results = set()
+    for c in pre:
+        if 'BlobHeader' in f.locals[c.dest[0]]['s'] or 'blob::header::Header' in f.locals[c.dest[0]]['s']:
+            conv_results |= core.flows_forward(f, c.dest[0], transparent=core.fwd_transparent)
+    fam = [prog.fns[x] for x in prog.family(f.id)]
+    for g in fam:
+        for c in g.calls:
+            if c.name not in ('call', 'call_once', 'call_mut') or (c.self_ty or {}).get('h') not in ('param', '&'):
+                continue
+            # the (args) tuple: last element is the version
+            n += 1
+            key = 'source-version|%s|%d' % (g.id, n)
+            ogs = core.origins_ip(prog, g, c.args[1], depth=0, stop_fields=True) if len(c.args) > 1 else []
+            deep = list(ogs)
+            for o in ogs:
+                if o.kind == 'agg' and o.data.get('ak') == 'tuple' and o.data['ops']:
+                    deep += core.origins_ip(prog, o.fn, o.data['ops'][-1], depth=0, stop_fields=True)
+            # the same walk without stopping at fields: which header value does `x.version` belong to
+            plain = core.origins_ip(prog, g, c.args[1], depth=0) if len(c.args) > 1 else []
+            for o in list(plain):
+                if o.kind == 'agg' and o.data.get('ak') == 'tuple' and o.data['ops']:
+                    plain += core.origins_ip(prog, o.fn, o.data['ops'][-1], depth=0)
+            deep = deep + plain
+            from_conv = [o for o in deep if o.kind == 'call' and o.fn.id == f.id and o.data.dest[0] in conv_results and o.data.name in ('call', 'call_once', 'call_mut')]
+            from_read = [o for o in deep if (o.kind == 'call' and o.data.name == 'read_header') or (o.kind == 'field' and o.data[1] == 'version')]
+            if from_conv:
+                ctx.bad(rid, key, c.where(), 'the version handed to the record preprocessor comes from the already converted header: records are `migrated` from the target version to itself and keep their old layout under a new header')
+            elif from_read:
+                ctx.ok(rid, key, c.where(), 'version argument originates in the header read from the input')
+            else:
+                ctx.ok(rid, key, c.where(), 'version argument not derived from the converted header', nontrivial=False)
+    if n < 2:
+        raise core.AnchorLost('preprocessor calls: %d' % n)
+
+
 RULES = [
     Rule('C16.W1', 'the tools\' record writer stamps its own position into blob_offset (and recomputes the header CRC) before serialising a header', w1, 1),
     Rule('C16.W2', 'the recovered output is re-validated whenever validation was requested', w2, 1),
@@ -301,5 +391,7 @@ RULES = [
     Rule('C16.W4', 'the tools reader validates blob header, record header and data checksum before handing out a record', w4, 3),
     Rule('C16.W5', 'the tools reader advances `position` after every successful read before any exit', w5, 2),
     Rule('C16.W6', 'the tools\' output blob is opened truncating', w6, 1),
+    Rule('C16.W8', 'the skip after a bad header never trusts offsets stored in that header', w8, 1),
+    Rule('C16.W9', 'migration passes the source version (as read) to both preprocessors', w9, 2),
     Rule('C16.W7', 'the index tools load through the validating loader and validate every reported header', w7, 2),
 ]
